@@ -448,7 +448,7 @@ struct C07 : Property
 		if (destroyed.size() != alive)
 			ctx.fail("C07:teardown-release-mismatch", "destroying the array released %zu element(s), it held %zu", destroyed.size(), alive);
 		if (!g_alloc.live.empty())
-			ctx.fail("C07:leak@" + g_alloc.site_of(g_alloc.live.begin()->second), "%zu allocation(s) remain after the array was destroyed:%s", g_alloc.live.size(),
+			ctx.fail("C07:leak@" + g_alloc.first_live_site(), "%zu allocation(s) remain after the array was destroyed:%s", g_alloc.live.size(),
 			         g_alloc.describe_live().c_str());
 	}
 };
